@@ -7,8 +7,10 @@ static const uint32_t vs_K[64] = {
 0x27b70a85,0x2e1b2138,0x4d2c6dfc,0x53380d13,0x650a7354,0x766a0abb,0x81c2c92e,0x92722c85,0xa2bfe8a1,0xa81a664b,0xc24b8b70,0xc76c51a3,0xd192e819,0xd6990624,0xf40e3585,0x106aa070,
 0x19a4c116,0x1e376c08,0x2748774c,0x34b0bcb5,0x391c0cb3,0x4ed8aa4a,0x5b9cca4f,0x682e6ff3,0x748f82ee,0x78a5636f,0x84c87814,0x8cc70208,0x90befffa,0xa4506ceb,0xbef9a3f7,0xc67178f2};
 static long g_alt_compress_calls = 0;
+static long g_alt_zero_block_calls = 0;     /* the callback contract says "one or more" blocks: an invocation with n_blocks == 0 is counted */
 #define VS_ROR(x,n) (((x) >> (n)) | ((x) << (32 - (n))))
 static void vs_sha256_compress(uint32_t *st, const unsigned char *blk, size_t nb) {
+    if (nb == 0) __atomic_add_fetch(&g_alt_zero_block_calls, 1, __ATOMIC_RELAXED);
     while (nb--) {
         uint32_t w[64], a, b, c, d, e, f, g, h, t1, t2; int i;
         for (i = 0; i < 16; i++) w[i] = ((uint32_t)blk[4*i] << 24) | ((uint32_t)blk[4*i+1] << 16) | ((uint32_t)blk[4*i+2] << 8) | blk[4*i+3];
@@ -86,7 +88,7 @@ static void op_ctx_set_compress(void) {
     CALL(secp256k1_context_set_sha256_compression(ctx, m == 0 ? NULL : (m == 1 ? vs_sha256_compress : vs_sha256_compress_bad)));
     R_int(ctx->hash_ctx.fn_sha256_compression == vs_sha256_compress ? 1 : (ctx->hash_ctx.fn_sha256_compression == vs_sha256_compress_bad ? 2 : 0));
 }
-static void op_ctx_alt_calls(void) { R_int(g_alt_compress_calls); }
+static void op_ctx_alt_calls(void) { R_int(g_alt_compress_calls); R_int(g_alt_zero_block_calls); }
 /* blinding state of the current context as bytes (for evidence: distinct states seen) */
 static void op_ctx_state(void) {
     unsigned char b[32]; secp256k1_scalar_get_b32(b, &ctx->ecmult_gen_ctx.scalar_offset);
